@@ -282,7 +282,7 @@ func solveAll(vcs []*VC, cfg solveCfg) {
 				return
 			}
 			file := filepath.Join(cfg.outDir, fmt.Sprintf("vc%05d.smt2", i))
-			os.WriteFile(file, []byte(text), 0o644)
+			os.WriteFile(file, []byte("; ob="+vc.Ob+" trace="+vc.Trace+"\n"+text), 0o644)
 			vc.File = file
 			r := solveOne(file, cfg, vc.Kind == "cover")
 			vc.Verdict, vc.Solver, vc.Raw, vc.Time, vc.Confirmed = r.verdict, r.solver, r.raw, r.secs, r.confirmed
